@@ -1445,7 +1445,7 @@ func checkC12(p *Prog, res *Result, tier string) {
 	res.rule("C12-R0", "C11-R1 / R2 / R5 / R6 / R7 / R9 / R12 / R13 (sibling agreement of the adapters and the wrapper; batch begin/commit discipline, which only the in-process engine turns into a lock)", 30)
 	res.rule("C12-R6", "the scan-based expiry, which stands in for native TTL on the one engine that has none, removes an event record only under an age guard on that record's own revision, the index record by compare-and-delete (C17-R2/R3)", 4)
 	res.rule("C12-R5", "bytes handed to an engine write are not a window into a reusable buffer: the in-process engine keeps the slice it is given, the others copy it", 10)
-	res.rule("C12-R4", "results do not depend on how the engine partitions the key space, which only TiKV does (C13-R5)", 2)
+	res.rule("C12-R4", "results do not depend on how the engine partitions the key space, which only TiKV does (C13-R5, C13-R9)", 2)
 	res.rule("C12-R1", "the backend's write paths dispatch only on the error classes of the adapter table", 5)
 	res.rule("C12-R2", "SupportTTL is consulted only by the scanner's expiry code", 2)
 	res.rule("C12-R3", "the in-process engine's iterator yields snapshot copies: live skip-list elements are dereferenced only under the store lock (C19-R3)", 4)
@@ -1460,6 +1460,7 @@ func checkC12(p *Prog, res *Result, tier string) {
 	// dependence on the engine (C13-R5: borders contiguous and realigned)
 	sub13 := newResult("C13")
 	checkBorderContiguity(p, r, sub13, p.ssaPkg("pkg/backend/scanner"))
+	checkAdvertisedBorders(p, r, sub13, "C13-R9")
 	for _, o := range sub13.Obls {
 		res.add("C12-R4", o.Rule+" "+o.Construct, o.Status, o.Pos, o.Detail)
 	}
